@@ -48,6 +48,11 @@ func (c01) Gen(seed uint64, run int, tier string) *Plan {
 	p := &Plan{Engine: EngineVersion, Property: "C01", Seed: seed, Run: run, Tier: tier, Cfg: cfg, Knobs: map[string]int{}}
 	p.Knobs["demons"] = 1 + r.Intn(3)
 	p.Knobs["ops"] = 1
+	if r.Intn(3) == 0 {
+		// a second operator whose connection fails or stalls in the middle of the traffic: agent
+		// requests announce themselves to every operator, dead or alive
+		p.Knobs["ops"] = 2
+	}
 	p.Knobs["pivot"] = r.Intn(2)
 	p.Policy = simrt.Policy{Name: "atomic"}
 	if r.Intn(4) == 0 {
@@ -66,6 +71,11 @@ func (c01) Gen(seed uint64, run int, tier string) *Plan {
 			}
 		}
 		p.Actions = append(p.Actions, a)
+	}
+	if p.Knobs["ops"] == 2 {
+		at := r.Intn(len(p.Actions))
+		f := Action{Kind: "opfault", C: r.Intn(3)}
+		p.Actions = append(p.Actions[:at], append([]Action{f}, p.Actions[at:]...)...)
 	}
 	return p
 }
@@ -142,7 +152,7 @@ func mutate(r *simrt.Rand, b []byte) []byte {
 func (c01) Exec(p *Plan, dir string) *Result {
 	res := &Result{}
 	r := genRand(p.Seed, "C01x", p.Run)
-	w, err := stdWorld(p, dir, r, 1, p.Knob("demons", 1))
+	w, err := stdWorld(p, dir, r, p.Knob("ops", 1), p.Knob("demons", 1))
 	defer closeWorld(w)
 	if err != nil {
 		res.HarnessError = err.Error()
@@ -185,6 +195,21 @@ func (c01) Exec(p *Plan, dir string) *Result {
 		w.Sim.SetAction(i)
 		if a.Kind == "dup" {
 			st.duplicate(a)
+			continue
+		}
+		if a.Kind == "opfault" {
+			if len(w.Operators) > 1 {
+				c := w.Operators[1].WS.C
+				switch a.C % 3 {
+				case 0:
+					c.Reset()
+				case 1:
+					c.CutAfter(1 + a.D%200)
+				default:
+					c.Stall(true)
+				}
+				res.Probe("operator-connection-faults")
+			}
 			continue
 		}
 		st.request(a)
